@@ -75,14 +75,14 @@ theorem setup_stepInv (p : Nat → List Cmd) (sp : List Cmd) : StepInv (setup (i
   · simp [setup, rearm, init, pushStep]
   · simp [setup, rearm, init, pushStep, stepClocks]
 
-theorem pushUser_pending_stepEvs (s : Sim) (t : Int) (p a : Nat) :
-    stepEvs (pushUser s t p a).pending = stepEvs s.pending :=
+theorem pushUser_pending_stepEvs (s : Sim) (t : Int) (p a : Nat) (c : Option Nat := none) :
+    stepEvs (pushUser s t p a c).pending = stepEvs s.pending :=
   stepEvs_insert_user _ rfl
 
-theorem doCmd_stepEvs (s : Sim) (c : Cmd) : stepEvs (doCmd s c).pending = stepEvs s.pending := by
+theorem doCmd1_stepEvs (s : Sim) (c : Cmd) : stepEvs (doCmd1 s c).pending = stepEvs s.pending := by
   cases c with
   | schedAbs t p a =>
-    simp only [doCmd, schedAbs]
+    simp only [doCmd1, schedAbs]
     split
     · rename_i s' hs
       split at hs
@@ -92,7 +92,7 @@ theorem doCmd_stepEvs (s : Sim) (c : Cmd) : stepEvs (doCmd s c).pending = stepEv
         · simp only [Except.ok.injEq] at hs; subst hs; exact pushUser_pending_stepEvs _ _ _ _
     · rfl
   | schedRel d p a =>
-    simp only [doCmd, schedRel]
+    simp only [doCmd1, schedRel]
     split
     · rename_i s' hs
       split at hs
@@ -101,17 +101,26 @@ theorem doCmd_stepEvs (s : Sim) (c : Cmd) : stepEvs (doCmd s c).pending = stepEv
         · simp at hs
         · simp only [Except.ok.injEq] at hs; subst hs; exact pushUser_pending_stepEvs _ _ _ _
     · rfl
+  | again k d p =>
+    rcases doCmd1_again_cases s k d p with he | ⟨a, _, _, he⟩ <;> rw [he]
+    exact pushUser_pending_stepEvs _ _ _ _ _
   | cancel k =>
-    simp only [doCmd, cancelTag]
+    simp only [doCmd1, cancelTag]
     apply stepEvs_map_user
     · intro e; split <;> rfl
     · intro e he; simp [he]
   | drop k =>
-    simp only [doCmd, dropTag]
+    simp only [doCmd1, dropFn]
     apply stepEvs_map_user
     · intro e; split <;> rfl
     · intro e he; simp [he]
   | halt => rfl
+  | raise x => rfl
+
+theorem doCmd_stepEvs (s : Sim) (c : Cmd) : stepEvs (doCmd s c).pending = stepEvs s.pending := by
+  unfold doCmd; split
+  · rfl
+  · exact doCmd1_stepEvs s c
 
 theorem foldl_doCmd_stepEvs (s : Sim) (cs : List Cmd) :
     stepEvs (cs.foldl doCmd s).pending = stepEvs s.pending := by
@@ -222,8 +231,10 @@ theorem runUntil_stepInv {f : Nat} {s s' : Sim} {T : Int} (hw : WF s) (h : StepI
       obtain ⟨_, hlt, _⟩ := popLive_spec hw.sorted hp
       split at hr
       · rename_i heT
-        refine ih (exec_wf (popped_wf hw hp) e) (exec_popped_stepInv hw h hp) ?_ hr
-        rw [exec_now]; exact heT
+        split at hr
+        · simp only [Option.some.injEq] at hr; subst hr; exact exec_popped_stepInv hw h hp
+        · refine ih (exec_wf (popped_wf hw hp) e) (exec_popped_stepInv hw h hp) ?_ hr
+          rw [exec_now]; exact heT
       · simp only [Option.some.injEq] at hr; subst hr
         refine ⟨h.abm, ⟨st, ⟨?_, ha.live, ha.alive, ha.isStep, ha.time, ha.prio⟩⟩, Int.le_trans h.le hT, h.stepLog⟩
         show stepEvs (insert e rest) = [st]
@@ -241,9 +252,9 @@ theorem runNext_stepInv {s : Sim} (hw : WF s) (h : StepInv s) : StepInv (runNext
 
 /-- after `run_until(k ticks)` the step counter equals the clock -/
 theorem steps_eq_clock {f : Nat} {s s' : Sim} {k : Nat} (hw : WF s) (h : StepInv s) (hT : s.now ≤ (k : Int) * U)
-    (hr : runUntil f s ((k : Int) * U) = some s') : s'.steps = k ∧ s'.now = (k : Int) * U := by
+    (hr : runUntil f s ((k : Int) * U) = some s') (hn : s'.raised = none) : s'.steps = k ∧ s'.now = (k : Int) * U := by
   have hinv := runUntil_stepInv hw h hT hr
-  obtain ⟨hnow, hpost, _⟩ := runUntil_post hw hr
+  obtain ⟨hnow, hpost, _⟩ := runUntil_post hw hr hn
   obtain ⟨st, ha⟩ := hinv.armed
   have hmem : st ∈ s'.pending := by
     have : st ∈ stepEvs s'.pending := by rw [ha.only]; simp
@@ -266,6 +277,7 @@ inductive ReachableAbm : Sim → Prop where
   | cmd {s : Sim} (c : Cmd) : ReachableAbm s → ReachableAbm (doCmd s c)
   | until {s s' : Sim} {f : Nat} {T : Int} : ReachableAbm s → s.now ≤ T → runUntil f s T = some s' → ReachableAbm s'
   | next {s : Sim} : ReachableAbm s → ReachableAbm (runNext s)
+  | caught {s : Sim} : ReachableAbm s → ReachableAbm (caught s)
 
 theorem ReachableAbm.reachable {s : Sim} (h : ReachableAbm s) : Reachable s := by
   induction h with
@@ -273,6 +285,7 @@ theorem ReachableAbm.reachable {s : Sim} (h : ReachableAbm s) : Reachable s := b
   | cmd c _ ih => exact .cmd c ih
   | «until» _ hT hr ih => exact .until ih hT hr
   | next _ ih => exact .next ih
+  | caught _ ih => exact .caught ih
 
 theorem reachableAbm_inv {s : Sim} (h : ReachableAbm s) : StepInv s := by
   induction h with
@@ -280,5 +293,8 @@ theorem reachableAbm_inv {s : Sim} (h : ReachableAbm s) : StepInv s := by
   | cmd c _ ih => exact doCmd_stepInv ih c
   | «until» hs hT hr ih => exact runUntil_stepInv (reachable_inv hs.reachable).1 ih hT hr
   | next hs ih => exact runNext_stepInv (reachable_inv hs.reachable).1 ih
+  | caught _ ih =>
+    obtain ⟨st, ha⟩ := ih.armed
+    exact ⟨ih.abm, ⟨st, ⟨ha.only, ha.live, ha.alive, ha.isStep, ha.time, ha.prio⟩⟩, ih.le, ih.stepLog⟩
 
 end Mesa.Devs
